@@ -113,11 +113,9 @@ class OomdContext {
   std::vector<ConstCgroupContextRef> reverseSort(
       const std::unordered_set<CgroupPath>& cgroups,
       Functor&& get_key) {
-    auto sorted = addToCacheAndGet(cgroups);
-    std::sort(sorted.begin(), sorted.end(), [&](const auto& a, const auto& b) {
-      return get_key(a.get()) > get_key(b.get());
+    return sortDescByKey(addToCacheAndGet(cgroups), [&](const CgroupContext& c) {
+      return get_key(c);
     });
-    return sorted;
   }
 
   /*
@@ -128,15 +126,36 @@ class OomdContext {
   static std::vector<ConstCgroupContextRef> sortDescWithKillPrefs(
       const std::vector<ConstCgroupContextRef>& cgroups,
       Functor&& get_key) {
-    auto sorted = cgroups;
-    std::sort(sorted.begin(), sorted.end(), [&](const auto& a, const auto& b) {
+    return sortDescByKey(cgroups, [&](const CgroupContext& c) {
       return std::make_tuple(
-                 a.get().kill_preference().value_or(KillPreference::NORMAL),
-                 get_key(a.get())) >
-          std::make_tuple(
-                 b.get().kill_preference().value_or(KillPreference::NORMAL),
-                 get_key(b.get()));
+          c.kill_preference().value_or(KillPreference::NORMAL), get_key(c));
     });
+  }
+
+  /*
+   * Sorts by a key that is evaluated exactly once per cgroup. CgroupContext
+   * accessors retry their reads while a value is unavailable, so a cgroup that
+   * disappears in the middle of a sort could otherwise hand std::sort two
+   * different keys for the same element, which is undefined behaviour.
+   */
+  template <class Functor>
+  static std::vector<ConstCgroupContextRef> sortDescByKey(
+      const std::vector<ConstCgroupContextRef>& cgroups,
+      Functor&& get_key) {
+    using Key = decltype(get_key(cgroups.front().get()));
+    std::vector<std::pair<Key, ConstCgroupContextRef>> keyed;
+    keyed.reserve(cgroups.size());
+    for (const auto& cgroup_ctx : cgroups) {
+      keyed.emplace_back(get_key(cgroup_ctx.get()), cgroup_ctx);
+    }
+    std::sort(keyed.begin(), keyed.end(), [](const auto& a, const auto& b) {
+      return a.first > b.first;
+    });
+    std::vector<ConstCgroupContextRef> sorted;
+    sorted.reserve(keyed.size());
+    for (const auto& entry : keyed) {
+      sorted.push_back(entry.second);
+    }
     return sorted;
   }
 
